@@ -189,23 +189,44 @@ def _sign_var(f):
 
 
 def number_matches(F):
+    """the `match <parse of the digits> { Ok(i) if <sign test> => .. }` of each notation, in Imm::from_str and in the private helpers of Imm it
+    calls: [(notation, parse type, match node, name of the sign variable in that function)]"""
+    import re
+    from .p_c13 import radix_sites
+    from .p_c06 import _imm_fns
     p = F.method(IMM, "from_str", trait="FromStr")
     f = F.fn(p)
+    sv = _sign_var(f)
+    sites = radix_sites(F)[1]
     out = []
-    for n in walk(f["hir"]["value"], pats=False):
-        if n.get("k") != "Match":
+    fns = [(f, sv)]
+    for q in sorted(_imm_fns(F)):
+        if q == p or not q.startswith(IMM + "::") or "hir" not in F.fns[q]:
             continue
-        sc = _strip(n["scrut"])
-        if sc.get("k") == "Call" and short(callee_of(sc) or "") == "from_str_radix":
-            import re
-            from .p_c13 import radix_sites
-            alts = next((a for c_, a, _ in radix_sites(F)[1] if c_ is sc), None)
-            radixes = [r for _, r in alts] if alts else [lit_value(sc["args"][1])]
-            m = re.search(r"<impl (\w+)>::from_str_radix", callee_of(sc) or "")
-            for radix in radixes:
-                out.append(({16: "hex", 2: "binary", 10: "decimal", 8: "octal"}.get(radix, f"radix{radix}"), m.group(1) if m else None, n))
-        elif sc.get("k") == "MethodCall" and sc["name"] == "parse":
-            out.append(("decimal", (sc.get("gargs") or [None])[-1], n))
+        # the helper's name for the sign: the parameter that receives the caller's sign variable
+        h = F.fn(q)
+        pn = [p_.get("name") for p_ in h["hir"]["params"]]
+        hsv = None
+        for c in walk(f["hir"]["value"], pats=False):
+            if c.get("k") == "Call" and callee_of(c) == q:
+                for i_, a_ in enumerate(c["args"]):
+                    a2 = _strip(a_)
+                    if a2.get("k") == "Path" and a2.get("res") == sv and i_ < len(pn):
+                        hsv = pn[i_]
+        fns.append((h, hsv))
+    for g, gsv in fns:
+        for n in walk(g["hir"]["value"], pats=False):
+            if n.get("k") != "Match":
+                continue
+            sc = _strip(n["scrut"])
+            if sc.get("k") == "Call" and short(callee_of(sc) or "") == "from_str_radix":
+                alts = next((a for c_, a, _ in sites if c_ is sc), None)
+                radixes = [r for _, r in alts] if alts else [lit_value(sc["args"][1])]
+                m = re.search(r"<impl (\w+)>::from_str_radix", callee_of(sc) or "")
+                for radix in radixes:
+                    out.append(({16: "hex", 2: "binary", 10: "decimal", 8: "octal"}.get(radix, f"radix{radix}"), m.group(1) if m else None, n, gsv))
+            elif sc.get("k") == "MethodCall" and sc["name"] == "parse":
+                out.append(("decimal", (sc.get("gargs") or [None])[-1], n, gsv))
     return f, out
 
 
@@ -217,13 +238,15 @@ WANT = {1: (0, 2 ** 32 - 1), -1: (0, 2 ** 31)}
 def c17g(F, R):
     """a 32-bit value may be written in any notation: after the optional sign, hexadecimal, binary and decimal magnitudes are accepted on the same range - 0..=0xFFFFFFFF without a sign (read as the two's-complement word), 0..=0x80000000 after `-` - and yield sign x magnitude as a 32-bit value; `0xFFFFFFFF` accepted and `4294967295` rejected is the same value read differently"""
     f, ms = number_matches(F)
-    sv = _sign_var(f)
-    if sv is None:
+    if _sign_var(f) is None:
         R.bad("sign", "UNEXTRACTABLE: no `let (s, sign) = if let Some(..) = s.strip_prefix('-') ..` in Imm::from_str", f["sp"])
         return
     seen = set()
-    for nota, pty, m in ms:
+    for nota, pty, m, sv in ms:
         seen.add(nota)
+        if sv is None:
+            R.bad(f"{nota}|sign", f"UNEXTRACTABLE: the {nota} branch is read in a helper that does not receive the sign", loc(m))
+            continue
         rng = ty_range(pty)
         if not rng:
             R.bad(f"{nota}|parse-type", f"UNEXTRACTABLE: {nota} magnitude parsed as `{pty}`", loc(m))
